@@ -24,8 +24,9 @@ PROPERTIES = ["X01"]
 SPEC = os.path.join(vlib.SPEC, "chainq")
 CHAIN = os.path.join(vlib.SPEC, "chain")
 CHAIN_FILES = {n: os.path.join(CHAIN, n) for n in ("Chain.tla", "ChainProps.tla", "MC_Chain.tla")}
-WORKERS = 4          # the machine is shared
-JOBS = 4             # concurrent TLC / harness processes of this check
+WORKERS = 4          # TLC workers of one run in the thorough tier (two families at a time); the machine is shared
+WORKERS_QUICK = 2    # ... in the quick tier (four families at a time)
+JOBS = 4             # concurrent J3 / harness processes of one family
 
 BASE = dict(MinDeposit=2, BidMinDeposit=1, OrderMaxBids=20, BidDepositChoices=[1], KeyChoices="NoKeys", AttrChoices="NoAttrs",
             Auditors=[], Versions=[1], AmountChoices=[])
@@ -44,9 +45,9 @@ FAMILIES = {
                GroupChoices="GroupChoicesS", AttrChoices="AttrChoicesRA", KeyChoices="KeyChoicesR", DepositChoices=[3], PriceChoices=[1],
                Gaps=[1], InitCoins=8, mode="simulate"),
 }
-# (family, roots, simulate num, depth)
-QUICK = [("QS", 14, 24, 18), ("QG", 8, 16, 18), ("QB", 4, 12, 16), ("QR", 8, 16, 14)]
-THOROUGH = [("QS", 100000, 0, 0), ("QG", 600, 0, 0), ("QB", 160, 160, 34), ("QR", 200, 128, 24)]
+# (family, roots, simulate num, depth, roots walked while the chain moves, writes per walk, schedules replayed per root)
+QUICK = [("QS", 14, 24, 18, 2, 1, 150), ("QG", 8, 16, 18, 1, 1, 150), ("QB", 4, 12, 16, 1, 1, 200), ("QR", 8, 16, 14, 2, 1, 150)]
+THOROUGH = [("QS", 100000, 0, 0, 12, 2, 1500), ("QG", 600, 0, 0, 8, 1, 1500), ("QB", 160, 160, 34, 6, 1, 1500), ("QR", 200, 128, 24, 10, 2, 1500)]
 MAX_PER_KIND_QUICK = 700
 
 
@@ -64,7 +65,7 @@ def consts(fam):
     return lines
 
 
-def mc_cfg(fam, mode, sim_depth=0, impl="intended"):
+def mc_cfg(fam, mode, sim_depth=0, impl="intended", max_writes=1):
     c = FAMILIES[fam]
     sim = sim_depth > 0
     lines = ["SPECIFICATION QSpec", "VIEW QView", "CONSTANTS"] + consts(fam)
@@ -76,9 +77,12 @@ def mc_cfg(fam, mode, sim_depth=0, impl="intended"):
               "  InitCoins = %d" % c["InitCoins"],
               "  MaxHeight = %d" % (1000 if sim else c.get("MaxHeight", 1000)),
               "  MaxSteps = %d" % (sim_depth if sim else 60),
-              "  OnlyOK = TRUE", '  Impl = "%s"' % impl, "  DefaultLimit = 100", '  AskMode = "%s"' % mode, "  MaxPages = 40"]
+              "  OnlyOK = TRUE", '  Impl = "%s"' % impl, "  DefaultLimit = 100", '  AskMode = "%s"' % mode, "  MaxPages = 40",
+              "  MaxWrites = %d" % max_writes]
     if mode == "gen":
         lines.append("INVARIANTS QShape")
+    elif mode == "wwalk":
+        lines.append("INVARIANTS QWWalkOK QWExport")
     else:
         lines.append("INVARIANTS QListOK QGetOK QWalkOK QWalkBounded QExport")
         lines.append("PROPERTIES QReadOnly")
@@ -109,6 +113,13 @@ _SHAPE = re.compile(r'^<<"QSHAPE", "(.*?)", "(.*)">>$')
 _QNODE = re.compile(r'^<<"QNODE", (\d+), "(.*?)", "(.*)">>$')
 
 
+def _workers():
+    return WORKERS_QUICK if _TIER["quick"] else WORKERS
+
+
+_TIER = {"quick": False}
+
+
 def gen(fam, seed, num, depth, timeout):
     """TLC explores the chain model; returns {shape json: [path json, ...]} and the TLC result."""
     c = FAMILIES[fam]
@@ -117,7 +128,7 @@ def gen(fam, seed, num, depth, timeout):
         r = vlib.tlc(SPEC, "MC_ChainQuery", "MC.cfg", workers=1, timeout=timeout, extra_files={"MC.cfg": cfg}, copy_files=CHAIN_FILES,
                      simulate=dict(num=num, depth=depth + 2, seed=seed), heap="3g")
     else:
-        r = vlib.tlc(SPEC, "MC_ChainQuery", "MC.cfg", workers=WORKERS, timeout=timeout, extra_files={"MC.cfg": cfg}, copy_files=CHAIN_FILES,
+        r = vlib.tlc(SPEC, "MC_ChainQuery", "MC.cfg", workers=_workers(), timeout=timeout, extra_files={"MC.cfg": cfg}, copy_files=CHAIN_FILES,
                      heap="4g")
     vlib.tlc_require_ok(r, "gen MC_ChainQuery family %s" % fam)
     shapes = {}
@@ -188,7 +199,7 @@ def choose_roots(shapes, n, seed):
 def j1(fam, roots, timeout, impl="intended"):
     """Exhaustive J1 over (root, request); returns the TLC result and the harness node lines."""
     rtxt = "".join('{"p":%s}\n' % p for p in roots)
-    r = vlib.tlc(SPEC, "MC_ChainQuery", "MC.cfg", workers=WORKERS, timeout=timeout, copy_files=CHAIN_FILES, heap="4g",
+    r = vlib.tlc(SPEC, "MC_ChainQuery", "MC.cfg", workers=_workers(), timeout=timeout, copy_files=CHAIN_FILES, heap="4g",
                  extra_files={"MC.cfg": mc_cfg(fam, "full", impl=impl), "roots.ndjson": rtxt})
     if impl != "intended":
         return r, []
@@ -202,6 +213,24 @@ def j1(fam, roots, timeout, impl="intended"):
     if len(nodes) != len(roots):
         raise vlib.Inconclusive("J1 exported %d plans for %d roots (family %s)" % (len(nodes), len(roots), fam))
     return r, [nodes[i] for i in sorted(nodes)]
+
+
+_QWALK = re.compile(r'^<<"QWALK", (\d+), "(.*?)", "(.*)", (\d+)>>$')
+
+
+def j1w(fam, roots, max_writes, timeout):
+    """J1 for walks while the chain moves (AskMode = "wwalk"): every interleaving of <= max_writes successful transactions
+    with the pages of every walk of WWalks; returns the TLC result and, per root index, the exported schedules."""
+    rtxt = "".join('{"p":%s}\n' % p for p in roots)
+    r = vlib.tlc(SPEC, "MC_ChainQuery", "MC.cfg", workers=_workers(), timeout=timeout, copy_files=CHAIN_FILES, heap="4g",
+                 extra_files={"MC.cfg": mc_cfg(fam, "wwalk", max_writes=max_writes), "roots.ndjson": rtxt})
+    vlib.tlc_require_ok(r, "J1 MC_ChainQuery wwalk family %s (%d roots)" % (fam, len(roots)))
+    sched = {}
+    for line in r.out.splitlines():
+        m = _QWALK.match(line)
+        if m:
+            sched.setdefault(int(m.group(1)), []).append('{"q":%s,"acts":%s}' % (_unq(m.group(2)), _unq(m.group(3))))
+    return r, sched
 
 
 def run_harness(vh, fam, work, nodes, seed, shards, max_per_kind, dedup=True, conc=150):
@@ -249,6 +278,13 @@ KNOWN_CLASSES = {"count_total-next_key-overwritten": "count_total:next_key-overw
                  "auditor-filter-ignored": "AuditorAttributes:auditor-filter-ignored"}
 
 
+def _qr(ln, i):
+    """The (request, response) a judgement refers to: request i of a state line, or the whole walk of a walk-under-writes line."""
+    if ln.get("ww"):
+        return {"q": ln["q"], "r": {"segs": ln["segs"], "acts": ln["acts"], "truncated": ln["truncated"]}}
+    return ln["qs"][i - 1]
+
+
 def signature(name, q, cls):
     if cls in KNOWN_CLASSES:
         return KNOWN_CLASSES[cls]
@@ -266,7 +302,7 @@ def selftest(fam, trace, dirty=()):
 
     def find(pred):
         for li, ln in enumerate(lines[1:], start=2):
-            for qi, qr in enumerate(ln["qs"], start=1):
+            for qi, qr in enumerate(ln.get("qs", []), start=1):
                 if (li, qi) not in dirty and pred(qr):
                     return li, qi
         return None
@@ -320,36 +356,68 @@ def selftest(fam, trace, dirty=()):
     return res
 
 
+def selftest_ww(fam, trace):
+    """Binding self-test for walks while the chain moves: the records of a later page are dropped; TLC must report WalkStable."""
+    lines = [json.loads(x) for x in open(trace)]
+    for ln in lines[1:]:
+        if ln.get("ww") and len(ln["segs"]) >= 3 and len(ln["states"]) >= 2 and ln["segs"][1]["r"]["items"] and not ln["truncated"]:
+            bad = json.loads(json.dumps(ln))
+            bad["segs"][1]["r"]["items"] = []
+            d = vlib.scratch("chainq-selfw-")
+            p = os.path.join(d, "w.ndjson")
+            open(p, "w").write(json.dumps(lines[0]) + "\n" + json.dumps(ln) + "\n" + json.dumps(bad) + "\n")
+            _, fails, drift = j3(fam, p, ["X01", "CONF"], timeout=600)
+            return (not any(f[1] == 2 and f[0] == "WalkStable" for f in fails)) and any(f[1] == 3 and f[0] == "WalkStable" for f in fails)
+    return None
+
+
 def run(pid, tier, seed, replay):
     t0 = time.time()
     vh = vlib.build_harness()
     if replay:
         return do_replay(pid, vh, replay, t0, seed)
     thorough = tier == "thorough"
+    _TIER["quick"] = not thorough
     plans = THOROUGH if thorough else QUICK
     cov = dict(states=0, transitions=0, traces_validated_against_impl=0, evaluations=0, drift_steps=0, configs=[], samples=[],
                exhaustive=True, chain_states_explored=0, shapes_seen=0, roots=0)
     violations, drifts = [], []
     selft = None
+    selfw = None
     distinct = set()
 
     def family(plan):
-        fam, nroots, num, depth = plan
+        fam, nroots, num, depth, nw, mw, nsched = plan
         rg, shapes = gen(fam, seed, num, depth, timeout=2400)
         roots = choose_roots(shapes, nroots, seed)
-        r1, nodes = j1(fam, roots, timeout=3000)
+        widx = sorted(range(len(roots)), key=lambda i: (-len(roots[i]), i))[:nw]
+        with cf.ThreadPoolExecutor(max_workers=2) as ex2:
+            f1 = ex2.submit(j1, fam, roots, 3000)
+            fw = ex2.submit(j1w, fam, [roots[i] for i in widx], mw, 3000)
+            r1, nodes = f1.result()
+            rw, sched = fw.result()
+        # walks while the chain moves: on the roots with the longest histories (most records), every interleaving of <= mw
+        # successful transactions with the pages of every walk (J1), a seeded sample of the schedules replayed (J2/J3)
+        rnd = random.Random(seed * 31 + 7)
+        nww = 0
+        for j, i in enumerate(widx, start=1):
+            ws = sorted(set(sched.get(j, [])))
+            nww += len(ws)
+            if len(ws) > nsched:
+                ws = sorted(rnd.sample(ws, nsched))
+            nodes[i] = nodes[i][:-1] + ',"wwalks":[%s]}' % ",".join(ws)
         work = vlib.scratch("chainq-%s-" % fam)
         shards = max(1, min(JOBS, len(nodes) // 3))
         outs = run_harness(vh, fam, work, nodes, seed, shards, 0 if thorough else MAX_PER_KIND_QUICK, conc=400 if thorough else 150)
         with cf.ThreadPoolExecutor(max_workers=JOBS) as ex:
             res = list(ex.map(lambda o: j3(fam, o[0], ["X01", "CONF"]), outs))
-        return fam, rg, shapes, roots, r1, outs, res
+        return fam, rg, shapes, roots, r1, outs, res, rw, nww
 
-    with cf.ThreadPoolExecutor(max_workers=2) as ex:
+    with cf.ThreadPoolExecutor(max_workers=2 if thorough else 4) as ex:
         results = list(ex.map(family, plans))
 
     asfound_seen = {}
-    for fam, rg, shapes, roots, r1, outs, res in results:
+    for fam, rg, shapes, roots, r1, outs, res, rw, nww in results:
         nreq = sum(o[1]["requests"] for o in outs)
         for (tr, summ), (r3, fails, drift) in zip(outs, res):
             nlines = sum(1 for _ in open(tr))
@@ -361,7 +429,7 @@ def run(pid, tier, seed, replay):
                 lines = [json.loads(x) for x in open(tr)]
             for (name, l, i, cls) in fails:
                 ln = lines[l - 1]
-                qr = ln["qs"][i - 1]
+                qr = _qr(ln, i)
                 sig = signature(name, qr["q"], cls)
                 if cls in KNOWN_CLASSES:
                     asfound_seen.setdefault(cls, (fam, roots))
@@ -369,23 +437,27 @@ def run(pid, tier, seed, replay):
                     fam, name, json.dumps(ln["path"]), json.dumps(qr["q"]), json.dumps(qr["r"])[:3000]),
                     {"script.json": json.dumps({"family": fam, "path": ln["path"], "q": qr["q"]}), "step.json": json.dumps(qr, indent=1)}))
             for (l, i, what) in drift:
-                qr = lines[l - 1]["qs"][i - 1]
+                qr = _qr(lines[l - 1], i)
                 drifts.append("family %s line %d request %d (%s): q=%s r=%s" % (fam, l, i, what, json.dumps(qr["q"]), json.dumps(qr["r"])[:600]))
             if lines and len(cov["samples"]) < 4 and len(lines) > 1:
-                ln = lines[len(lines) // 2]
+                ln = next(x for x in lines[len(lines) // 2:] + lines[1:] if x.get("qs"))
                 qr = ln["qs"][len(ln["qs"]) // 2]
                 cov["samples"].append({"family": fam, "path": ln["path"][-6:], "q": qr["q"], "r_err": qr["r"].get("err", ""),
                                        "r_items": len(qr["r"].get("items", qr["r"].get("pages", [])))})
+            if selfw is None:
+                selfw = selftest_ww(fam, tr)
             if selft is None and lines and len(lines) > 1:
                 selft = selftest(fam, tr, [(f[1], f[2]) for f in fails] + [(x[0], x[1]) for x in drift])
             for ln in open(tr):
                 o = json.loads(ln)
-                if "qs" in o:
+                if o.get("ww"):
+                    distinct.add(hash((fam, json.dumps(o["path"]), json.dumps(o["q"], sort_keys=True), json.dumps(o["acts"], sort_keys=True))))
+                elif "qs" in o:
                     sk = json.dumps(o["S"], sort_keys=True)
                     for qr in o["qs"]:
                         distinct.add(hash((fam, sk, json.dumps(qr["q"], sort_keys=True))))
-        cov["states"] += r1.distinct
-        cov["transitions"] += r1.generated
+        cov["states"] += r1.distinct + rw.distinct
+        cov["transitions"] += r1.generated + rw.generated
         cov["chain_states_explored"] += rg.distinct or sum(len(v) for v in shapes.values())
         cov["shapes_seen"] += len(shapes)
         cov["roots"] += len(roots)
@@ -393,6 +465,8 @@ def run(pid, tier, seed, replay):
         cov["configs"].append({"family": fam, "chain_exploration": "exhaustive" if rg.distinct else "simulate", "chain_states": rg.distinct, "shapes": len(shapes), "roots": len(roots),
                                "j1_states": r1.distinct, "j1_transitions": r1.generated, "j1_wall_s": round(r1.wall_s, 1),
                                "gen_wall_s": round(rg.wall_s, 1), "impl_requests": nreq,
+                               "wwalk_j1_states": rw.distinct, "wwalk_j1_wall_s": round(rw.wall_s, 1), "wwalk_schedules_model": nww,
+                               "wwalk_schedules_replayed": sum(o[1].get("walks_under_writes", 0) for o in outs),
                                "impl_requests_concurrent_pass": sum(o[1].get("concurrent_requests", 0) for o in outs),
                                "kinds_skipped_unchanged": sum(o[1]["kinds_skipped_unchanged"] for o in outs),
                                "per_kind": _merge([o[1]["per_kind"] for o in outs]), "errors": _merge([o[1]["errors"] for o in outs])})
@@ -420,8 +494,10 @@ def run(pid, tier, seed, replay):
     cov["distinct_nontrivial"] = len(distinct)
     cov["rule"] = ("requests answered by the real query servers; distinct = distinct (projected chain state, request) pairs; a walk "
                    "(all its pages) counts as one request")
+    if selft is not None:
+        selft["dropped_page_of_walk_under_writes_rejected"] = "skipped: no recorded walk under writes with >= 3 pages" if selfw is None else selfw
     cov["binding_selftest"] = selft
-    if not selft or not all(selft.values()) or len(selft) < 3:
+    if not selft or not all(selft.values()) or len(selft) < 4:
         raise vlib.Inconclusive("binding self-test failed: %s" % selft)
     if drifts:
         # conformance is not an alarm, but the shipped spec must say what the code does
